@@ -6,7 +6,33 @@ C18i (numerical layer) — accuracy and panic-freedom of the INVERSE hyperbolic 
    family panics on a valid x"
 
 Values are real numbers: `val t = hi + lo = t.V / 2^1074 : ℝ`; the references are Mathlib's `Real.arsinh`,
-`Real.arcosh`, `Real.artanh`.  `u = 2^-53`.
+`Real.arcosh`, `Real.artanh`.  `u = 2^-53` (`2^-100 = 64u²`).  Every result below also states that the value returned is
+a VALID pair.
+
+PROVED
+ * `asinh_bound` — the floor, IN FULL: valid `x`, `|v| ≤ 2^60`, both signs.  What the analysis gives (`asinh_bound_sharp`):
+   `|asinh(x) − arsinh v| ≤ 32u²·|arsinh v| + 61u²`.  Budget: `|x|·|x|` `7u²`, `+ 1.0` `2u²`, `sqrt` `21u²` + half of the
+   `9.1u²` of its argument, `|x| + sqrt` `3.01u²`: the argument of `ln` is within relative `28.7u²` of `t + √(t² + 1)`;
+   `ln` turns that into an absolute `28.7u²` and adds its own `32u²·(1 + |L|)`.  The sign is restored exactly
+   (`TwoFloat::abs`, `Neg` are exact), so negative arguments are exactly as accurate as positive ones.
+ * `atanh_bound` — the floor, IN FULL: valid `x`, `|v| ≤ 1 − 2^-10`.  Sharp form (`atanh_bound_sharp`):
+   `|atanh(x) − artanh v| ≤ 34u²·|artanh v| + 27u²`.  Budget: `1 + x`, `1 − x` `2u²` each, the long division `16u²`, `ln`
+   `32u²·(1 + |L|)`, the halving `1.001u²` (+ one unit `2^-1074`).
+ * `acosh_bound_partial` — the floor `2^-100·(A + 1/A)` for valid `x` with `1 + 2^-103 ≤ v ≤ 2^60`.  Sharp form
+   (`acosh_bound_sharp`): `|acosh(x) − A| ≤ 32u²·A + 66u² + 7.2u²/A`.  The `1/A` term is the cancellation in `x² − 1`:
+   the absolute error `7u²·v²` of the product is an error `7.01u²/√W` of `√W`, `W = v² − 1`, and `A ≤ sinh A = √W`
+   (`Real.sinh_arcosh`, `Real.self_le_sinh_iff`).
+ * panic-freedom, unconditional on these ranges (`asinh_pf`, `acosh_pf`, `atanh_pf`): the intermediate `sqrt` result /
+   quotient is a valid pair (`PowfBound.sqrt_rv` from `C13s.sqrt_bound_21u2`; `Exp2Bound.div_rv`), which discharges the
+   hypotheses of `C18p.asinh_pf_of_sqrt_inv`, `acosh_pf_of_sqrt_inv`, `atanh_pf_of_quot_inv`.
+
+OPEN
+ * `acosh` for `1 < v < 1 + 2^-103` (then `x = (1, lo)`, `0 < lo < 2^-103`): the generic product bound (`7u²` relative
+   to `v² ≈ 1`) no longer shows `x·x − 1 > 0`.  On that range the product is in fact computed almost exactly
+   (`x·x = (1, RN(lo + RN(lo + RN(lo²))))`), so this is a proof gap (it needs a dedicated analysis of that path, and for
+   `lo < 2^-891` a `sqrt` bound below the range `[2^-900, 2^1000]` of `C13s.sqrt_bound_21u2`), not an observed defect.
+ * panic-freedom outside the accuracy ranges (e.g. `asinh` beyond `2^60`, where it would follow in the same way up to
+   `|x| ≈ 2^490`; beyond that `x·x + 1` leaves the range of the proved `sqrt` bound).
 -/
 import TFV.Lemmas.PowfBound
 import TFV.Properties.C13c
@@ -859,5 +885,61 @@ theorem acosh_pf (x : TwoFloat) (hv : x.Valid) (hw : x.WF) (h1 : 1 + 1 / 2 ^ 103
   exact C18p.acosh_pf_of_sqrt_inv x (Or.inl hv) hw (Or.inl hQ.1)
 
 end acosh
+
+/-! ## 5. instances on concrete operands (hypotheses discharged by kernel evaluation) -/
+
+section examples
+
+/-- the double-double `(c, 0)` -/
+def ofF (c : F64) : TwoFloat := ⟨c, F64.zero⟩
+
+theorem val_of_V {t : TwoFloat} {n : ℤ} (h : t.V = n) : val t = (n : ℝ) / 2 ^ 1074 := by
+  show ExpBound.rv t = _
+  unfold ExpBound.rv; rw [h]
+
+theorem val_one : val (ofF F64.one) = 1 := by
+  rw [val_of_V (show (ofF F64.one).V = 2 ^ 1074 by decide +kernel)]
+  simp only [Int.cast_pow, Int.cast_ofNat]
+  exact div_self (by positivity : ((2 : ℝ) ^ 1074) ≠ 0)
+
+theorem val_two : val (ofF (f64lit 0x4000000000000000)) = 2 := by
+  rw [val_of_V (show (ofF (f64lit 0x4000000000000000)).V = 2 ^ 1075 by decide +kernel)]
+  simp only [Int.cast_pow, Int.cast_ofNat]
+  rw [div_eq_iff (by positivity : ((2 : ℝ) ^ 1074) ≠ 0), ← pow_succ']
+
+theorem val_half : val (ofF (f64lit 0x3fe0000000000000)) = 1 / 2 := by
+  rw [val_of_V (show (ofF (f64lit 0x3fe0000000000000)).V = 2 ^ 1073 by decide +kernel)]
+  simp only [Int.cast_pow, Int.cast_ofNat]
+  rw [div_eq_iff (by positivity : ((2 : ℝ) ^ 1074) ≠ 0)]
+  rw [show (1074 : ℕ) = 1073 + 1 by norm_num, pow_succ]; ring
+
+theorem val_neg_one : val (ofF (F64.neg F64.one)) = -1 := by
+  rw [val_of_V (show (ofF (F64.neg F64.one)).V = -2 ^ 1074 by decide +kernel)]
+  simp only [Int.cast_neg, Int.cast_pow, Int.cast_ofNat]
+  rw [neg_div, div_self (by positivity : ((2 : ℝ) ^ 1074) ≠ 0)]
+
+/-- `asinh(1)`, `asinh(−1)`, `acosh(2)`, `atanh(1/2)` -/
+example :
+    |val (TwoFloat.asinh (ofF F64.one)) - Real.arsinh 1| ≤ 1 / 2 ^ 100 * |Real.arsinh 1| + 1 / 2 ^ 98 ∧
+    |val (TwoFloat.asinh (ofF (F64.neg F64.one))) - Real.arsinh (-1)| ≤ 1 / 2 ^ 100 * |Real.arsinh (-1)| + 1 / 2 ^ 98 ∧
+    |val (TwoFloat.acosh (ofF (f64lit 0x4000000000000000))) - Real.arcosh 2|
+      ≤ 1 / 2 ^ 100 * (Real.arcosh 2 + 1 / Real.arcosh 2) ∧
+    |val (TwoFloat.atanh (ofF (f64lit 0x3fe0000000000000))) - Real.artanh (1 / 2)|
+      ≤ 1 / 2 ^ 100 * |Real.artanh (1 / 2)| + 1 / 2 ^ 101 := by
+  have h1 := (asinh_bound (ofF F64.one) (by decide +kernel) ⟨by decide +kernel, by decide +kernel⟩
+    (by rw [val_one]; norm_num)).2
+  have h2 := (asinh_bound (ofF (F64.neg F64.one)) (by decide +kernel) ⟨by decide +kernel, by decide +kernel⟩
+    (by rw [val_neg_one]; norm_num)).2
+  have h3 := (acosh_bound_partial (ofF (f64lit 0x4000000000000000)) (by decide +kernel)
+    ⟨by decide +kernel, by decide +kernel⟩ (by rw [val_two]; norm_num) (by rw [val_two]; norm_num)).2
+  have h4 := (atanh_bound (ofF (f64lit 0x3fe0000000000000)) (by decide +kernel)
+    ⟨by decide +kernel, by decide +kernel⟩ (by rw [val_half]; norm_num)).2
+  rw [val_one] at h1
+  rw [val_neg_one] at h2
+  rw [val_two] at h3
+  rw [val_half] at h4
+  exact ⟨h1, h2, h3, h4⟩
+
+end examples
 
 end C18i
